@@ -243,7 +243,7 @@ def run(prog, rep, tier='quick'):
                 rep.proved('nesting', f.qname, 'stores [%s]' % ctx, 'none depends on the order', where)
     # integer-typed records: squares / products of the samples must be formed in floating point
     v, itp = C.run_function(prog, 'burg', 'arburg', [C.data(False, phase=False), IntV(Aff.sym('Po'), frozenset(['order'])), Const(None)], {})
-    ia = [e for e in itp.events if e[0] == 'int-arith' and e[3] == f.qname]
+    ia = [e for e in itp.events if e[0] == 'int-arith' and (e[3] == f.qname or (e[3].startswith('burg.') and e[3] in itp.trace))]
     if ia:
         for e in ia[:3]:
             key = ('int', normalise(e[1]))
